@@ -94,6 +94,11 @@ pub fn jaxable(f: &mut FactSet) {
     }
     // the obo header carries the version as YYYY-MM-DD
     f.version = (f.version.0 % 10_000, f.version.1 % 100, f.version.2 % 100);
+    // a quarter of the fact sets carries no release version: half of those are rendered as an obo
+    // file without any header block (the file starts with its first stanza)
+    if f.content_hash() % 4 == 0 {
+        f.version = (0, 0, 0);
+    }
 }
 
 pub fn construct(f: &FactSet, path: PathKind, rng: &mut Rng, tag: &str) -> Built {
